@@ -66,7 +66,7 @@ static void bitcasts(uint32_t b) {
     { glm::uint r = glm::floatBitsToUint(f); EV("floatBitsToUint", float).arg(f).res(r).emit(); }
     { float r = glm::intBitsToFloat(i);      EV("intBitsToFloat", float).arg(i).res(r).emit(); }
     { float r = glm::uintBitsToFloat(u);     EV("uintBitsToFloat", float).arg(u).res(r).emit(); }
-    glm::vec3 fv(f, from_bits<float>(b ^ 0x80000000u), from_bits<float>(b + 1)); glm::ivec3 iv(i, i ^ 0x40000000, i + 1); glm::uvec3 uv(u, ~u, u + 1);
+    glm::vec3 fv(f, from_bits<float>(b ^ 0x80000000u), from_bits<float>(b + 1)); glm::ivec3 iv(i, i ^ 0x40000000, from_bits<int>(uint32_t(b) + 1u)); glm::uvec3 uv(u, ~u, u + 1);
     { glm::ivec3 r = glm::floatBitsToInt(fv);  EV("floatBitsToInt", float).num("L", 3).arg(fv).res(r).emit(); }
     { glm::uvec3 r = glm::floatBitsToUint(fv); EV("floatBitsToUint", float).num("L", 3).arg(fv).res(r).emit(); }
     { glm::vec3 r = glm::intBitsToFloat(iv);   EV("intBitsToFloat", float).num("L", 3).arg(iv).res(r).emit(); }
